@@ -30,6 +30,21 @@ CHECKS['C13'] = dict(
    note='the graph handed to prune is structurally consistent (C09)',
    technique='Lean 4 proof (fold characterisation + invariant reuse) + differential correspondence',
    design='C13')
+CHECKS['C01'] = dict(
+   text='Theorems (Props/C01.lean): membership in the result of the evaluator model equals the set-lifted denotation DenF for every expression (all nine operators), every source list and every instance model (eval_mem_iff); field navigation = Linked incl. self-links (neighbours_iff); the frontier loop of the transitive operator is totally correct with fuel |assets|+2 on every finite model incl. cycles (closure_correct, eval_terminates); the edge list of genGraph is exactly EdgeSpec (edges_iff_EdgeSpec, child_iff); parents are the converse of children. Tied to attackgraph.py/model.py by random well-typed languages x valid models: child and parent sets of every node compared with an independent reference set semantics (bounds closure+..closure*) and with the Lean model.',
+   note='operands of * must distribute over unions of sources (TransOK; proved for everything built from field/collect/union/subtype/transitive/variables, and shown necessary by a proved counterexample); variable lookup is set-lifted as in the code; the model returns mixedVariable where sources disagree on a variable definition (unreachable for well-typed languages); sufficiency of the concrete variable fuel L.varFuel and the step name of expressions ending in a variable are not proved (UNPROVED block)',
+   technique='Lean 4 proof (induction on fuel and expression; closure invariant + pigeonhole) + differential correspondence',
+   design='C01')
+CHECKS['C02'] = dict(
+   text='Theorems (Props/C02.lean): genNodes yields exactly one node per (asset, folded step) pair in order and no other (nodes_eq_spec, exactly_one_node, no_other_node), ids are the positions (ids_nodup), every attribute is the declaration\'s (node_attributes: type, ttc, tags, mitre, defense = explicit value or class default, existence = requirement reaches an asset), full names are injective for colon-free step names even when asset names contain colons (fullName_injective, fullNames_nodup), lookups by id / full name are exact. Tied to _generate_graph/add_node by random languages x models compared with an independent reference and the Lean model, lookups for present and absent keys.',
+   note='asset names pairwise distinct (C05), step names colon-free (true of everything the lexer accepts); defense defaults taken from the generated classes',
+   technique='Lean 4 proof (list equalities, string lemma over List Char) + differential correspondence',
+   design='C02')
+CHECKS['C03'] = dict(
+   text='Theorems (Props/C03.lean): the pure fold foldSteps satisfies the override / extend / absent / new clauses as equations, keeps key order, depends only on the ancestor chain (fold_local, fold_independent_of_others); a heap-level model of the resolver (Model/InheritH.lean: deepcopy = fresh location, list.extend = in-place write) returns foldSteps for every history of queries and never writes a location of the loaded specification (resolve_value, resolve_frame, resolve_history_loaded), while the pre-fix aliasing variant provably does (aliasing_variant_writes_spec). Tied to _get_attacks_for_asset_type by asking every type three times in shuffled order before/after regenerating the language graph, building classes and two attack graphs; answers compared with an independent fold and the Lean model; _lang_spec compared with a snapshot.',
+   note='acyclic single inheritance (chainOK hypothesis); object identity is modelled by store locations, the real aliasing is observed with id() as an early-warning count only',
+   technique='Lean 4 proof (fold laws; store model with freshness invariant) + differential correspondence',
+   design='C03')
 NOT_YET = {}
 def main():
     props = [json.loads(l) for l in open(os.path.join(HERE, 'properties.jsonl'))]
